@@ -71,6 +71,8 @@ func (sr *SR) parseWKTGeogCS(secName []string, secData string) error {
 		return nil // Don't do anything with authority for now.
 	} else if secName[len(secName)-1] == "METADATA" {
 		return nil
+	} else if secName[len(secName)-1] == "AXIS" {
+		return nil // Axis order is not used, as in PROJCS.
 	}
 	return fmt.Errorf("proj.parseWKTGeogCS: unknown WKT section %v", secName)
 }
